@@ -18,6 +18,7 @@ import (
 //	op 4  GammaInc/GammaIncComp grid: A, Xs
 //	op 5  Beta over pairs (Xs[2i], Xs[2i+1])
 //	op 6  monotonicity scan in x (hb_scan.go): Fn, A (, B), [Lo,Hi] in N cells
+//	op 7  Beta laws over pairs (Xs[2i], Xs[2i+1]): Beta(a,b), Beta(a+1,b), Beta(b,a)
 type c08Case struct {
 	Op int   `json:"op"`
 	N  int   `json:"n,omitempty"`
@@ -58,12 +59,18 @@ func c08Run(raw []byte) (*Line, error) {
 	case 2:
 		l.I(len(c.Xs))
 		for _, x := range c.Xs {
-			l.F(float64(x)).F(mathx.Sign(float64(x)))
+			o := mathx.Sign(float64(x))
+			if o == 0 && math.Signbit(o) {
+				// the line format identifies -0 with +0; the documented result for x == 0 is the
+				// constant 0, so a negative zero is reported as the smallest negative number
+				o = -math.SmallestNonzeroFloat64
+			}
+			l.F(float64(x)).F(o)
 		}
 	case 3:
 		a, b := float64(c.A), float64(c.B)
-		if !(a > 0 && b > 0) || math.IsInf(a, 0) || math.IsInf(b, 0) {
-			return nil, fmt.Errorf("a, b must be positive and finite")
+		if !(a >= 0.05 && b >= 0.05 && a <= 300 && b <= 300) {
+			return nil, fmt.Errorf("a, b must lie in the property's range [0.05, 300]")
 		}
 		l.F(a).F(b).I(len(c.Xs))
 		for _, xf := range c.Xs {
@@ -100,6 +107,19 @@ func c08Run(raw []byte) (*Line, error) {
 			a, b := float64(c.Xs[i]), float64(c.Xs[i+1])
 			l.F(a).F(b).F(mathx.Beta(a, b))
 		}
+	case 7:
+		if len(c.Xs)%2 != 0 {
+			return nil, fmt.Errorf("pairs expected")
+		}
+		l.I(len(c.Xs) / 2)
+		for i := 0; i+1 < len(c.Xs); i += 2 {
+			a, b := float64(c.Xs[i]), float64(c.Xs[i+1])
+			if !(a > 0 && b > 0) || math.IsInf(a, 0) || math.IsInf(b, 0) {
+				return nil, fmt.Errorf("a, b must be positive and finite")
+			}
+			a1 := a + 1
+			l.F(a).F(b).F(a1).F(mathx.Beta(a, b)).F(mathx.Beta(a1, b)).F(mathx.Beta(b, a))
+		}
 	case 6:
 		a, b := float64(c.A), float64(c.B)
 		lo, hi := float64(c.Lo), float64(c.Hi)
@@ -110,7 +130,7 @@ func c08Run(raw []byte) (*Line, error) {
 		dir := 1.0
 		switch c.Fn {
 		case 1:
-			if !(b > 0) || math.IsInf(b, 0) || lo < 0 || hi > 1 {
+			if !(a >= 0.05 && b >= 0.05 && a <= 300 && b <= 300) || lo < 0 || hi > 1 {
 				return nil, fmt.Errorf("bad scan")
 			}
 			f = func(x float64) float64 { return mathx.BetaInc(x, a, b) }
@@ -398,7 +418,7 @@ func c08Gen(tier string, rng *rand.Rand, emit func(interface{})) {
 	gammaScan := []float64{0.7, 5, 120, 300}
 	if thorough {
 		cells = 1000000
-		betaScan = append(betaScan, [2]float64{0.05, 0.05}, [2]float64{1, 1}, [2]float64{0.5, 5000}, [2]float64{50.25, 0.5}, [2]float64{300, 0.05}, [2]float64{17, 230.5})
+		betaScan = append(betaScan, [2]float64{0.05, 0.05}, [2]float64{1, 1}, [2]float64{50.25, 0.5}, [2]float64{300, 0.05}, [2]float64{17, 230.5})
 		gammaScan = append(gammaScan, 0.05, 1, 2.5, 30, 75.5, 200.25)
 		for i := 0; i < 8; i++ {
 			betaScan = append(betaScan, [2]float64{c08Param(rng, 0.05, 300, 64), c08Param(rng, 0.05, 300, 64)})
@@ -416,6 +436,34 @@ func c08Gen(tier string, rng *rand.Rand, emit func(interface{})) {
 		lo, hi := math.Max(1.0/64, a-7*math.Sqrt(a)), a+9*math.Sqrt(a)+12
 		emit(c08Case{Op: 6, Fn: 2, A: F64(a), Lo: F64(lo), Hi: F64(hi), N: cells})
 		emit(c08Case{Op: 6, Fn: 3, A: F64(a), Lo: F64(lo), Hi: F64(hi), N: cells})
+	}
+	// ---- dense deterministic parameter sweeps (laws only: range, monotone, reflection / P+Q = 1, NaN-freeness):
+	//      a = k/8 up to 300 against a few non-integer b, short x grids.  A wrong fast path for a window of
+	//      parameters (a table limit, an overflow threshold) shows as a non-finite or out-of-range value.
+	step := 8
+	if thorough {
+		step = 32
+	}
+	for k := 1; k <= 300*step; k++ {
+		a := float64(k) / float64(step)
+		if a < 0.05 {
+			continue
+		}
+		b := []float64{0.5, 2.25, 30.75, 171.625}[k%4]
+		xs := []float64{0, 0.0625, 0.25, 0.5, 0.75, 0.9375, 1, a / (a + b), (a + 1) / (a + b + 2)}
+		emit(c08Case{Op: 3, A: F64(a), B: F64(b), Xs: c08SortedUnique(xs)})
+		emit(c08Case{Op: 4, A: F64(a), Xs: c08SortedUnique([]float64{0, a / 4, a / 2, a, a + 1, a + 1.5, 2 * a, 2*a + 20, 1e4})})
+	}
+	// ---- op 7: Beta laws on a dense grid (every a = k/4 up to 300 against 8 values of b)
+	var lawXs []F64
+	for k := 1; k <= 1200; k++ {
+		for _, b := range []float64{0.05, 0.5, 1, 2.25, 10.25, 100, 171.625, 300} {
+			lawXs = append(lawXs, F64(float64(k)/4), F64(b))
+		}
+		if len(lawXs) >= 1600 || k == 1200 {
+			emit(c08Case{Op: 7, Xs: lawXs})
+			lawXs = nil
+		}
 	}
 	// ---- op 5: Beta(a,b)
 	var bx []F64
